@@ -29,6 +29,14 @@ func InitGenesis(ctx sdk.Context, k keeper.Keeper, genState types.GenesisState) 
 			panic(fmt.Errorf("failed to set feeder delegation (%s)", err))
 		}
 	}
+
+	// the round info is otherwise first written by the end-blocker of the first block, and
+	// prevotes sent in that block would be refused although its prevote window is open
+	firstBlockCtx := ctx
+	if ctx.BlockHeight() > 0 {
+		firstBlockCtx = ctx.WithBlockHeight(ctx.BlockHeight() - 1)
+	}
+	k.SetCurrentRoundInfo(ctx, k.CalculateNextRoundInfo(firstBlockCtx))
 }
 
 // ExportGenesis returns the module's exported genesis
